@@ -240,10 +240,60 @@ def one_case(ctx, case):
     ctx.sample({k: rep[k] for k in ("measurements", "ics", "pcs", "norm", "thetas")}, cap=3)
 
 
+def two_parameters(ctx):
+    """two estimated parameters whose priors are declared in another order than `params_to_estimate` (a dictionary has no
+    order that matters): theta[i] is the value of params_to_estimate[i] and is judged by that parameter's prior."""
+    import pandas as pd
+    from bioscrape.types import Model
+    from bioscrape.inference_setup import InferenceSetup
+    spec = dict(species=["A", "B", "C"], parameters={"k": 1.0, "d": 0.7, "g": 0.3},
+                reactions=[(["A"], ["B"], "massaction", {"k": "k"}), (["B"], ["C"], "massaction", {"k": "d"}),
+                           (["C"], [], "massaction", {"k": "g"}), ([], ["A"], "massaction", {"k": 0.4})],
+                initial_condition_dict={"A": 10.0, "B": 0.0, "C": 2.0})
+    frames = [pd.DataFrame({"time": np.linspace(0, 3.0, 5), "B": [0.0, 3.1, 4.0, 3.7, 3.0], "C": [2.0, 2.2, 2.9, 3.5, 3.8]}),
+              pd.DataFrame({"time": np.array([0.0, 0.4, 1.1, 2.0, 2.6]), "B": [1.0, 2.0, 2.6, 2.2, 1.9], "C": [0.0, 0.3, 0.9, 1.4, 1.6]})]
+    ics = [{"A": 10.0, "B": 0.0, "C": 2.0}, {"A": 6.0, "B": 1.0, "C": 0.0}]
+    case = {"spec": spec, "frames": frames, "measurements": ["B", "C"], "ics": ics, "pcs": None, "norm": 2}
+    priors = {"d": ["uniform", 0.0, 10.0], "k": ["gaussian", 1.0, 2.0]}
+    for order in (("d", "k"), ("k", "d")):
+        prior = {n: priors[n] for n in order}
+        M = Model(**spec)
+        inf = InferenceSetup(Model=M, exp_data=list(frames), measurements=["B", "C"], time_column="time", params_to_estimate=["d", "k"], prior=prior,
+                             initial_conditions=list(ics), norm_order=2, sim_type="deterministic")
+        inf.prepare_inference()
+        inf.setup_cost_function()
+        for theta in ([0.5, 2.0], [2.0, 0.5], [0.5, 2.0], [12.0, 2.0], [1.5, 9.0]):
+            rep = {"scenario": "two estimated parameters", "params_to_estimate": ["d", "k"], "prior_declared_as": list(order), "theta": theta}
+            ctx.begin_case(rep)
+            got = float(inf.cost_function(np.array(theta)))
+            ctx.evaluated()
+            dv, kv = theta
+            if dv < 0 or dv > 10:
+                want = -math.inf
+            else:
+                lp = math.log(1 / 10.0) + (-0.5 * ((kv - 1.0) / 2.0) ** 2 - math.log(2.0 * math.sqrt(2 * math.pi)))
+                total = 0.0
+                Mf = Model(**spec)
+                pl, sl = Mf.get_param_list(), Mf.get_species_list()
+                for df, ic in zip(frames, ics):
+                    p = dict(zip(pl, [float(v_) for v_ in Mf.get_parameter_values()]))
+                    p.update({"k": kv, "d": dv})
+                    rows = fresh_sim(case, [p[q] for q in pl], [ic[s_] for s_ in sl], np.array(df["time"], dtype=float))
+                    for m in ("B", "C"):
+                        total += float(np.sum(np.abs(np.array(df[m], dtype=float) - rows[:, sl.index(m)]) ** 2))
+                want = lp - total ** 0.5
+            bad = (got != want) if not math.isfinite(want) else (not math.isfinite(got) or abs(got - want) > 1e-5 * (1 + abs(want)))
+            if bad:
+                ctx.violation("cost/two-parameters/prior-order", "params_to_estimate [d, k], prior declared as %s: cost_function(%s) = %r, the stated posterior is %r" % (list(order), theta, got, want), rep)
+                return
+            ctx.count("two_parameter_evaluations")
+
+
 def run(ctx):
     n = 25 if ctx.quick() else 600
     for i in range(n):
         one_case(ctx, gen_case(ctx.rng))
+    two_parameters(ctx)
 
 
 def replay(ctx, obj):
